@@ -12,7 +12,7 @@ use crate::{
     engine::{soft_fail, Check, Ctx, Failure, Outcome},
     fixtures::{
         problems::Instrumented,
-        run::{dispatch, run_observed, run_spec_strategy, stack_height, Audit, EvalKind, RunSpec, RunVisitor, StepEv},
+        run::{run_observed_auto, dispatch, run_observed, run_spec_strategy, stack_height, Audit, EvalKind, RunSpec, RunVisitor, StepEv},
     },
 };
 
@@ -76,7 +76,7 @@ impl RunVisitor for V16 {
             Err(e) => return soft_fail(Failure::new(format!("C16 {tpl} constructor rejects valid parameters"), format!("{at}: {e:#}"))),
         };
         let audit = Arc::new(Mutex::new(A16 { bounds: spec.tpl.pop_bounds(), is_cro: tpl == "real_cro", tpl, ..Default::default() }));
-        let res = run_observed(&cfg, &problem, spec.seed, EvalKind::Sequential, audit.clone());
+        let res = run_observed_auto(&cfg, &problem, spec.seed, EvalKind::Sequential, audit.clone());
         let a = audit.lock().unwrap();
         let state = match res {
             Ok(s) => s,
